@@ -66,6 +66,11 @@ def check_decode_case(case, acc):
     base = isogen.get_cfg(case['cfg'])
     enc = case['enc']
     pan = isogen.digits(case['len'], case.get('seed', 0) + case['bit'])
+    if case.get('fixed'):
+        # the masked element is a FIXED one: a card number shorter than the field arrives with blank filler, and the
+        # field value - filler included - is what the masking rule applies to (first six, last four, mask between)
+        cfg[str(case['bit'])].update(field_type='FIXED', field_length=case['fixed'])
+        pan = pan.ljust(case['fixed'])
     if case.get('lf') is not None:
         pan = pan[:case['lf']] + '\n' + pan[case['lf'] + 1:]
     msg = {'MTI': '1240', 'DE%d' % case['bit']: pan}
@@ -80,7 +85,7 @@ def check_decode_case(case, acc):
                 kind, param = isogen.default_variant(base[str(nb)])
                 msg['DE%d' % nb] = isogen.build_value(base[str(nb)], kind, param, enc, 0, nb)
     acc.case(('dec', case['cfg'], case['bit'], case['proc'], case['len'], enc, case['neighbours'], case['via'],
-              case.get('lf'), case.get('hex')),
+              case.get('lf'), case.get('hex'), case.get('fixed')),
              nontrivial=True, outcome=case['proc'] + ':' + case['via'])
     try:
         data, _ = iso_ref.encode(msg, cfg, enc, bool(case.get('hex')))
@@ -251,6 +256,15 @@ def tasks(tier, seed):
                                     for lf in (0, 7, n - 1):
                                         dec.append({'kind': 'dec', 'cfg': cfgname, 'bit': bit, 'proc': proc, 'len': n,
                                                     'enc': enc, 'neighbours': nb, 'via': via, 'seed': seed, 'lf': lf})
+    pkg = isogen.get_cfg('PKG')
+    for bit in [b_ for b_ in isogen.bits_of('PKG') if iso_ref.prefix_len(pkg[str(b_)]) == 2][:4]:
+        for width in (12, 16, 19, 24):
+            for n in sorted({10, 11, 13, 16, width - 1, width} & set(range(10, width + 1))):
+                for proc in ('PAN', 'PAN-PREFIX'):
+                    for enc in ('latin_1', 'cp500'):
+                        dec.append({'kind': 'dec', 'cfg': 'PKG', 'bit': bit, 'proc': proc, 'len': n, 'enc': enc,
+                                    'neighbours': bool(n % 2), 'via': 'loads' if n % 3 else 'reader', 'seed': seed,
+                                    'fixed': width})
     for ch in core.chunks(dec, 48):
         ts.append({'cases': ch})
     inplace = []
